@@ -166,7 +166,7 @@ Example log_run_ex_honest :
   let evs := [EStart 4; EFetchOk [4; 7] false; EFireRetry; EFetchOk [7; 8; 9; 15] false] in
   honest_run [3; 4; 7; 8; 9; 15; 16] 0 (run_steps 40 (init c 0 4096) evs).
 Proof.
-  cbn [run_steps]. vm_compute step. cbn [honest_run last_fetch fold_left]. repeat split.
+  vm_compute. repeat split.
   - intros _. exists [3], [8; 9; 15; 16]. split; [reflexivity | repeat constructor].
   - intros _. exists [3; 4], [16]. split; [reflexivity | repeat constructor].
 Qed.
